@@ -54,6 +54,11 @@ def cases(tier, seed, info):
         for fmt in ('bmc', 'pre'):
             items.append(dict(kind='parse', fmt=fmt, data=d, how=rng.choice(['upper', 'lower']),
                               noise=rng.random() < .4))
+    # offsets beyond 0xFFFF (the 4-digit address column of the BMC format wraps; the default format has 8 digits)
+    big = _data(rng, 65536 + 40)
+    items.append(dict(kind='dump', data=big, bpl=16, bpc=4))
+    items.append(dict(kind='parse', fmt='default', data=big, how='hexdump'))
+    items.append(dict(kind='parse', fmt='bmc', data=big, how='upper'))
     # all byte values in one dump
     items.append(dict(kind='dump', data=list(range(256)), bpl=16, bpc=4))
     items.append(dict(kind='parse', fmt='default', data=list(range(256)), how='hexdump'))
